@@ -5,7 +5,7 @@ from .. import core, gen, impl_thr, scen
 from . import c01
 
 ID = "C07"
-BUDGET = {"quick": 600, "thorough": 60000}
+BUDGET = {"quick": 2400, "thorough": 300000}
 RULE = ("scenario = scheduler (naive/any offset) with 1-3 jobs of all types (some batched) with stop exactly on an occurrence, "
         "+-1us, before the first occurrence, far away, or <= start/creation (must be rejected); combined with max_attempts and "
         "skip_missing; jobs registered through the scheduling calls or created directly and handed to Scheduler(jobs=...) "
